@@ -333,6 +333,17 @@ def sub : C → C → Bool
   | .ref n, .ref m => n == m
   | _, _ => false
 
+/-- environments from the generated association list (class, write codec, read codec) -/
+def envOfW (l : List (String × C × C)) : Env := fun n =>
+  match l.find? (fun e => e.1 == n) with
+  | some e => e.2.1
+  | none => .fail
+
+def envOfR (l : List (String × C × C)) : Env := fun n =>
+  match l.find? (fun e => e.1 == n) with
+  | some e => e.2.2
+  | none => .fail
+
 /-! ## Layer 3a: string-keyed maps are written in `sorted` key order -/
 
 /-- lexicographic order on byte strings = Python's `str` order on the UTF-8 images of the keys
